@@ -109,6 +109,12 @@ def healedBy : List (String × String) :=
    ("gfw_map", "top:read_master_species"),
    ("rates_map", "top:read_rates")]
 
+/-- owning pointer members that clean_up() does not release itself, with the function that does (frees:F, checked against the AST).
+    init() sets them to NULL, so nothing of the old object can be reached after a load. -/
+def freedElsewhere : List (String × String) :=
+  [("heat_mix_array", "frees:transport_cleanup"), ("m_s", "frees:transport_cleanup"), ("sol_D", "frees:transport_cleanup"),
+   ("temp1", "frees:transport_cleanup"), ("temp2", "frees:transport_cleanup")]
+
 def ioHealedBy : List (String × String) :=
   [("io.punch_on", "call:tidy_punch:Set_punch_on")]
 
